@@ -18,6 +18,7 @@ class FakeServer:
         self.data_writers = []
         self.commands = []
         self.listing_by_arg = {}
+        self.replies_by_line = {}     # whole command line -> raw reply (takes precedence over the per-verb table)
         self.sent = b""               # everything written on control connections
 
     async def start(self):
@@ -49,6 +50,9 @@ class FakeServer:
             verb, _, arg = text.partition(" ")
             verb = verb.upper()
             self.commands.append(text)
+            if text in self.replies_by_line:
+                writer.write(self.replies_by_line[text])
+                continue
             if verb in ("EPSV", "PASV") and verb not in self.replies:
                 if self.passive is None:
                     self.passive = await asyncio.start_server(on_data, "127.0.0.1", 0)
